@@ -17,15 +17,34 @@ package alg
 //@   loop 0: invariant forall k int :: native.scanEnd(string(data), 0) <= k && k < p ==> isSpace(data[k])
 //@   loop 0: decreases n - p
 
-// IsValidNumber: memory safety and termination for every string (the json.Number
-// text of a user value is arbitrary); an invalid literal must yield an error,
-// never a panic (C04, C07).
-//@ func IsValidNumber props C04,C19
-//@   loop 0: invariant true
+// IsValidNumber (C04, C19, C02): exactly the RFC 8259 number grammar
+//   number = [ "-" ] ( "0" | digit1-9 *digit ) [ "." 1*digit ] [ ("e"|"E") [ "+"|"-" ] 1*digit ]
+// written here independently of the code, over positions of the argument: dend(s, a) is
+// the end of the maximal run of digits starting at a (a recursive spec function).
+// Also memory safety and termination for every string (json.Number texts are arbitrary).
+//@ pure func isDig(c byte) bool = c >= 0x30 && c <= 0x39
+//@ pure func dend(s string, a int) int = ite(0 <= a && a < len(s) && isDig(s[a]), dend(s, a + 1), a)
+//@ pure func nSign(s string) int = ite(len(s) > 0 && s[0] == 0x2d, 1, 0)
+//@ pure func nIntOK(s string) bool = nSign(s) < len(s) && isDig(s[nSign(s)])
+//@ pure func nIntEnd(s string) int = ite(s[nSign(s)] == 0x30, nSign(s) + 1, dend(s, nSign(s) + 1))
+//@ pure func nHasFrac(s string) bool = len(s) - nIntEnd(s) >= 2 && s[nIntEnd(s)] == 0x2e && isDig(s[nIntEnd(s) + 1])
+//@ pure func nFracEnd(s string) int = ite(nHasFrac(s), dend(s, nIntEnd(s) + 2), nIntEnd(s))
+//@ pure func nHasExp(s string) bool = len(s) - nFracEnd(s) >= 2 && (s[nFracEnd(s)] == 0x65 || s[nFracEnd(s)] == 0x45)
+//@ pure func nExpSign(s string) bool = s[nFracEnd(s) + 1] == 0x2b || s[nFracEnd(s) + 1] == 0x2d
+//@ pure func nExpStart(s string) int = ite(nExpSign(s), nFracEnd(s) + 2, nFracEnd(s) + 1)
+//@ pure func numOK(s string) bool = nIntOK(s) && ite(nHasExp(s), nExpStart(s) < len(s) && isDig(s[nExpStart(s)]) && dend(s, nExpStart(s)) == len(s), nFracEnd(s) == len(s))
+// s is always a suffix of the argument s0: position p = len(s0) - len(s)
+//@ pure func sfx(s string, s0 string) bool = strsfx(s, s0)
+//@ func IsValidNumber props C04,C19,C02
+//@   ensures result == numOK(s)
+//@   loop 0: invariant sfx(s, s0) && nIntOK(s0) && s0[nSign(s0)] != 0x30 && nSign(s0) + 1 <= len(s0) - len(s)
+//@   loop 0: invariant dend(s0, len(s0) - len(s)) == dend(s0, nSign(s0) + 1)
 //@   loop 0: decreases len(s)
-//@   loop 1: invariant true
+//@   loop 1: invariant sfx(s, s0) && nIntOK(s0) && nHasFrac(s0) && nIntEnd(s0) + 2 <= len(s0) - len(s)
+//@   loop 1: invariant dend(s0, len(s0) - len(s)) == dend(s0, nIntEnd(s0) + 2)
 //@   loop 1: decreases len(s)
-//@   loop 2: invariant true
+//@   loop 2: invariant sfx(s, s0) && nIntOK(s0) && nHasExp(s0) && nExpStart(s0) <= len(s0) - len(s) && nExpStart(s0) < len(s0)
+//@   loop 2: invariant dend(s0, len(s0) - len(s)) == dend(s0, nExpStart(s0))
 //@   loop 2: decreases len(s)
 
 // ---- HtmlEscape: restart loop around native html_escape.
